@@ -195,3 +195,7 @@ pub fn select_cut<A: Ord + Clone>(array: &mut ndarray::ArrayViewMut1<'_, A>, i: 
     }
     Some(r)
 }
+
+pub use crate::histogram::strategies::{verif_equispaced, verif_equispaced_n_bins};
+pub use crate::quantile::interpolate::{verif_higher_index, verif_index_fraction, verif_lower_index};
+pub use crate::sort::{verif_get_many_rec, verif_get_many_unchecked};
